@@ -214,6 +214,23 @@ func CheckCmd(args []string) int {
 		writeEvidence(prop, *tier, seed, nil, nil, 1, 0, []string{"contracts did not resolve: " + err.Error()})
 		return 1
 	}
+	// second chance for ledger obligations that came back undecided: solver timing under load must not raise an alarm.
+	// They are re-run with a longer budget and little parallelism; only what is still undecided then is reported.
+	lock := loadLock()
+	locked := map[string]bool{}
+	for _, n := range lock[prop] {
+		locked[n] = true
+	}
+	var again []*Obligation
+	for _, o := range rr.Obls {
+		if !o.Canary && o.Status == "undecided" && locked[o.Name] && o.Kind != "frame" {
+			again = append(again, o)
+		}
+	}
+	if len(again) > 0 && len(again) <= 40 {
+		fmt.Printf("dsvc: %d ledger obligation(s) undecided within %ds; retrying with %ds\n", len(again), secs, secs*4)
+		rr.Engine.SolveAll(again, secs*4, 4, true, "")
+	}
 	return report(prop, *tier, seed, rr)
 }
 
